@@ -33,8 +33,8 @@ REQUIRED = {'quick': {'evaluations': 1500, 'compressed_pairs': 400, 'uncompresse
                       'out_of_range_refused': 200, 'source_digest_checks': 1500, 'exhaustive_small_n_messages': 30,
                       'cli_subset_runs': 4},
             'thorough': {'evaluations': 30000, 'compressed_pairs': 8000, 'uncompressed_pairs': 8000,
-                         'repeat_collections': 6000, 'out_of_range_refused': 4000, 'source_digest_checks': 30000,
-                         'exhaustive_small_n_messages': 600, 'cli_subset_runs': 60}}
+                      'repeat_collections': 6000, 'out_of_range_refused': 4000, 'source_digest_checks': 30000,
+                      'exhaustive_small_n_messages': 600, 'cli_subset_runs': 60}}
 
 
 def anchors():
